@@ -493,6 +493,7 @@ func C02(c *Ctx) {
 	versionAccumulatorGroup(c, "K2.version-accumulator-orderings")
 	newestAcrossSourcesGroup(c, "K10.newest-version-across-sources")
 	levelDisjointGroup(c, "K2.level-tables-disjoint")
+	reportedVersionGroup(c, "K2.reported-version-is-found-version")
 	const r5 = "K1.compaction-keeps-every-entry"
 	compactionKeepsAllGroup(c, r5)
 	const r2 = "K8.search-accepts-only-same-key"
